@@ -76,6 +76,8 @@ NOT_YET = "check not built yet in this round (design in DESIGN.md section 5); ru
 
 def main():
     regs = {f[4:7].upper() for f in os.listdir(os.path.join(HERE, "harness/cmd/vcheck")) if f.startswith("reg_c")}
+    ready = set(open(os.path.join(HERE, "tools/ready.txt")).read().split())
+    regs &= ready
     hooks_file = os.path.join(HERE, "MANIFEST.hooks")
     commits = []
     if os.path.exists(hooks_file):
